@@ -149,3 +149,9 @@ def pair_plans(body, modes_a, modes_b):
                 continue
             out.append(a + b2)
     return out
+
+
+def with_param_obs(body):
+    """variant for a function with one i32 parameter (local 0) and one declared local (local 1): both are
+    reported through $obs before the final end, so that instrumentation which clobbers them is observable"""
+    return body[:-1] + [["local.get", 0], ["call", OBS], ["local.get", 1], ["call", OBS], ["end"]]
